@@ -743,7 +743,9 @@ Section Sim.
       - (* blockHelperMissing *)
         apply rr_bind; [apply q_log_write; auto|]. intros _ s1 s1' _ HR1 Hs1. apply Hor; auto.
       - (* local *)
-        cbv zeta. destruct (starts_with (`"w:") name).
+        cbv zeta. destruct (starts_with (`"f:") name).
+        { apply q_out_write; [destruct HR as (c & -> & Hc); Rx|exact Hs]. }
+        destruct (starts_with (`"w:") name).
         { apply q_out_write; [destruct HR as (c & -> & Hc); Rx|exact Hs]. }
         destruct (starts_with (`"e:") name); [|apply q_log_write; auto].
         destruct HR as (c & -> & Hc).
